@@ -1005,3 +1005,13 @@ Qed.
 
 Lemma example_unitary_basis user : Forall unitary2 (map (lk user) [LX; LY; LZ; LY]).
 Proof. apply default_letters_unitary. repeat constructor. Qed.
+
+(* ------------------------------------------------------------------ which dictionary is used (c22f10c) *)
+Lemma resolve_dict_spec (arg state : option (list umat)) :
+  resolve_dict arg state = match arg, state with Some d, _ => d | None, Some d => d | None, None => [] end.
+Proof. destruct arg, state; reflexivity. Qed.
+
+(* a state without a dictionary and no unitaries= argument: every letter X, Y, Z denotes its default *)
+Lemma resolve_none_is_default a :
+  (forall k, a <> LU k) -> forall user, lk (resolve_dict None None) a = lk user a.
+Proof. intros H user. destruct a; try reflexivity. exfalso. apply (H k). reflexivity. Qed.
